@@ -25,6 +25,22 @@ def beDec (bs : Bytes) : Nat := leDec bs.reverse
 def take? (k : Nat) (bs : Bytes) : Option (Bytes × Bytes) :=
   if bs.length < k then none else some (bs.take k, bs.drop k)
 
+/-- the same without walking the whole remainder to learn its length (the compiled driver uses this one:
+    `csimp` below replaces `take?` by it on the strength of the proof, with no effect on the logic) -/
+def take?Fast (k : Nat) (bs : Bytes) : Option (Bytes × Bytes) :=
+  let a := bs.take k
+  if a.length < k then none else some (a, bs.drop k)
+
+@[csimp] theorem take?_eq_take?Fast : @take? = @take?Fast := by
+  funext k bs
+  unfold take? take?Fast
+  simp only [List.length_take]
+  by_cases h : bs.length < k
+  · have : min k bs.length < k := by omega
+    simp [h, this]
+  · have : ¬ min k bs.length < k := by omega
+    simp [h, this]
+
 @[simp] theorem leEnc_length (k n : Nat) : (leEnc k n).length = k := by
   induction k generalizing n with
   | zero => rfl
